@@ -142,7 +142,7 @@ def oracle_sequential(spec, res):
 
 def run(ctx):
     r = ctx.rng
-    n = ctx.n(60, 900)
+    n = ctx.n(220, 1500)
     lines, checks = [], []
     with Workdir():
         for si in range(n):
